@@ -379,3 +379,24 @@ PROPS["C06"] = {
     "assumptions": ["nested format groups are empty (the harness bypasses the registry): only the decoder's own code is covered", "text decoding stubbed as identity"],
     "outside": ["all other registered formats (about 125 of 132), the probe, inputs longer than the stated N: outside the claim"],
 }
+
+
+for _p, _pref, _clause in (("C03", "pkg/decode.VerifTree", "tree invariants on program rootarray: a format whose root is an array (gap fields are appended to the array)"),
+                           ("C04", "pkg/decode.VerifCover", "FillGaps cover + gap content on program rootarray"),
+                           ("C12", "pkg/interp.VerifNav", "path <-> navigation on the trees of program rootarray (gap fields inside an array)"),
+                           ("C05", "pkg/interp.VerifToBits", "tobits/tobytes of every value of the trees of program rootarray")):
+    PROPS[_p]["harnesses"].append({"entry": _pref + "RootArray", "clause": _clause, "bounds": {"buffer_bytes": "0..6"}})
+
+PROPS["C14"] = {
+    "level": "model_checking",
+    "explanation": "hex and the four base64 variants, entered through the closures fq registers with the jq VM (looked up in interp.DefaultRegistry at run time, including the argument casting layer): to(b) equals a reference encoder written in the harness, from(to(b)) = b, and from(s) on arbitrary symbolic strings is an error or the reference decoding, never a wrong value",
+    "wall_quick": 600, "wall_thorough": 1800,
+    "harnesses": [
+        {"entry": "format/text.VerifHex", "clause": "to_hex = reference, from_hex(to_hex(b)) = b", "bounds": {"bytes": "0..4"}},
+        {"entry": "format/text.VerifFromHexAny", "clause": "from_hex on any string: error unless it is an even number of hex digits of either case, then the reference decoding", "bounds": {"chars": "0..4, any byte values"}},
+        {"entry": "format/text.VerifBase64", "clause": "_to_base64 = reference for std/url/rawstd/rawurl; round trip", "bounds": {"bytes": "0..5"}},
+        {"entry": "format/text.VerifFromBase64Any", "clause": "_from_base64 (std) on any 4 characters: error or the reference decoding", "bounds": {"chars": "4, any byte values"}},
+    ],
+    "assumptions": ["mapstruct.ToStruct (reflection) is the engine's implementation for the option struct {encoding: string}"],
+    "outside": ["URL functions, text encodings (x/text), radix.jq, hashes, JSON/YAML/TOML/XML/CSV round trips: third-party reflective parsers / jq text / whole-stream loops — not applicable to this technique (DESIGN §5 C14)"],
+}
